@@ -117,11 +117,25 @@ func init() {
 		funcs:   []string{"Inc", "RollingSumAt", "TotalSum", "GetBuckets", "clearBucket", "Reset"},
 		imports: []string{"CircuitModel.GoRollingPrims"}, open: []string{"CM", "CM.Go", "CM.GoRolling", "CM.GoRolling.C"}, vars: "", monad: "QM", types: rollTypes,
 	}
+	rpTypes := map[string]string{"time.Time": "Int", "time.Duration": "Int", "int": "Int", "int64": "Int", "func(int)": "ClearFn", "[]time.Duration": "List Int"}
+	units["GoRollingBucketsP"] = &unit{ // the same Advance once more, over the percentile ring's state
+		name: "GoRollingBucketsP", file: "faststats/rolling_bucket.go", recv: "RollingBuckets", funcs: []string{"Advance"},
+		imports: []string{"CircuitModel.GoRollingPercentilePrims"}, open: []string{"CM", "CM.Go", "CM.GoRP", "CM.GoRP.B"}, vars: "", monad: "PM", types: rpTypes,
+	}
+	units["GoRollingPercentile"] = &unit{
+		name: "GoRollingPercentile", file: "faststats/rolling_percentile.go", recv: "RollingPercentile",
+		funcs:   []string{"SortedDurations", "clearBucket", "AddDuration", "Reset"},
+		imports: []string{"CircuitModel.GoRollingPercentilePrims"}, open: []string{"CM", "CM.Go", "CM.GoRP", "CM.GoRP.P"}, vars: "", monad: "PM", types: rpTypes,
+	}
+	units["GoDurationsBucket"] = &unit{
+		name: "GoDurationsBucket", file: "faststats/rolling_percentile.go", recv: "durationsBucket", funcs: []string{"Durations", "clear", "addDuration"},
+		imports: []string{"CircuitModel.GoRollingPercentilePrims"}, open: []string{"CM", "CM.Go", "CM.GoRP", "CM.GoRP.D"}, vars: "", monad: "SLM", types: rpTypes,
+	}
 	units["GoSortedDurations"] = &unit{
 		name: "GoSortedDurations", file: "faststats/rolling_percentile.go", recv: "SortedDurations", funcs: []string{"Mean", "Min", "Max", "Percentile"},
 		recvParam: "List I64",
 		imports:   []string{"CircuitModel.GoSortedDurationsPrims"}, open: []string{"CM", "CM.Go", "CM.GoSD"}, vars: "", monad: "DM",
-		types:     map[string]string{"time.Duration": "I64", "float64": "GoF64"},
+		types: map[string]string{"time.Duration": "I64", "float64": "GoF64"},
 	}
 	units["GoManager"] = &unit{
 		name: "GoManager", file: "manager.go", recv: "Manager", funcs: []string{"GetCircuit", "CreateCircuit", "MustCreateCircuit"},
@@ -391,6 +405,9 @@ func (t *tr) expr(e ast.Expr) string {
 		}
 		if root, path, ok := flatten(x.X); ok && root.Name == t.recvVar && t.recvVar != "" && len(path) > 0 {
 			return "(← recv_" + strings.Join(path, "_") + "_at " + t.atom(x.Index) + ")" // an element of a receiver field (map or slice)
+		}
+		if id, ok := x.X.(*ast.Ident); ok && t.locals[id.Name] {
+			return "(goAt " + lname(id.Name) + " " + t.atom(x.Index) + ")" // an element of a local slice
 		}
 		bad(e, "index expression")
 	case *ast.TypeAssertExpr:
@@ -686,6 +703,35 @@ func (t *tr) stmt(s ast.Stmt, ind string, out *[]string) {
 		if !ok {
 			bad(s, "expression statement")
 		}
+		if sel, ok := c.Fun.(*ast.SelectorExpr); ok && sel.Sel.Name == "Slice" && len(c.Args) == 2 {
+			if pk, ok := sel.X.(*ast.Ident); ok && pk.Name == "sort" && t.pkgs["sort"] {
+				// sort.Slice(x, func(i, j int) bool { return x[i] OP x[j] }): x sorted in place by the VALUE order OP
+				x0, isId := c.Args[0].(*ast.Ident)
+				fl, isFn := c.Args[1].(*ast.FuncLit)
+				if isId && isFn && t.locals[x0.Name] && len(fl.Body.List) == 1 && len(fl.Type.Params.List) >= 1 {
+					var ps []string
+					for _, f := range fl.Type.Params.List {
+						for _, n := range f.Names {
+							ps = append(ps, n.Name)
+						}
+					}
+					if r, ok := fl.Body.List[0].(*ast.ReturnStmt); ok && len(r.Results) == 1 && len(ps) == 2 {
+						if be, ok := r.Results[0].(*ast.BinaryExpr); ok {
+							l, lok := be.X.(*ast.IndexExpr)
+							rr, rok := be.Y.(*ast.IndexExpr)
+							if lok && rok && src(l.X) == x0.Name && src(rr.X) == x0.Name && src(l.Index) == ps[0] && src(rr.Index) == ps[1] {
+								switch be.Op {
+								case token.LSS, token.GTR, token.LEQ, token.GEQ:
+									t.emit(out, ind, lname(x0.Name)+" := goSortBy (fun a b => decide (a "+be.Op.String()+" b)) "+lname(x0.Name))
+									return
+								}
+							}
+						}
+					}
+				}
+				bad(s, "sort.Slice outside the recognised shape")
+			}
+		}
 		if sel, ok := c.Fun.(*ast.SelectorExpr); ok && t.u.mutating[sel.Sel.Name] {
 			if id, ok := sel.X.(*ast.Ident); ok && t.locals[id.Name] {
 				// a pointer-receiver method updating the local it is called on
@@ -816,6 +862,13 @@ func (t *tr) stmt(s ast.Stmt, ind string, out *[]string) {
 			bad(s, "more than two results")
 		}
 	case *ast.RangeStmt:
+		// for i := range <expr> { ... }: the indices
+		if ki, ok := x.Key.(*ast.Ident); ok && x.Value == nil && ki.Name != "_" && x.Tok == token.DEFINE {
+			t.locals[ki.Name] = true
+			t.emit(out, ind, "for "+lname(ki.Name)+" in goRange (goLen "+t.atom(x.X)+") do")
+			t.block(x.Body.List, ind+"  ", out)
+			return
+		}
 		// for _, v := range <expr> { ... }
 		k, kok := x.Key.(*ast.Ident)
 		v, vok := x.Value.(*ast.Ident)
